@@ -11,7 +11,11 @@ def replay(obligation, extra):
     tried = 0
     many = b''.join(ref.server_frame(1, ('m%d' % i).encode()) for i in range(300)) + ref.server_frame(9, b'tail-ping')
     big = ref.server_frame(2, bytes(range(256)) * 300) + ref.server_frame(1, b'after-big') + ref.server_frame(9, b'tail-ping')
-    for name, stream in (('300 small frames + ping in one burst', many), ('76 800-byte frame + text + ping in one burst', big)):
+    empty_last = ref.server_frame(9, b'lead-ping') + ref.server_frame(2, b'bin') + ref.server_frame(1, b'')
+    empty_fin = ref.server_frame(9, b'lead-ping') + ref.server_frame(1, b'part', fin=0) + ref.server_frame(0, b'', fin=1)
+    for name, stream in (('300 small frames + ping in one burst', many), ('76 800-byte frame + text + ping in one burst', big),
+                         ('ping, binary, then an EMPTY text message as the last frame of the burst', empty_last),
+                         ('ping, then a text message whose final fragment is empty, as the last frame of the burst', empty_fin)):
         for tls in (False, True):
             for record in (None, 16384, 5000):
                 if record and not tls:
@@ -39,7 +43,7 @@ def replay(obligation, extra):
                 late = [(n, t) for n, t in times if t > 1.0 + 1e-9]
                 pong_frames = [d for w in run.sock.out[1:] for d in ref.decode_all(w) if d and d['opcode'] == 10]
                 desc = '%s; %s transport%s' % (name, 'TLS (pending())' if tls else 'plain', (', %d-byte records' % record) if record else '')
-                n_expected = 301 if name.startswith('300') else 3
+                n_expected = 301 if name.startswith('300') else (2 if 'final fragment' in name else 3)
                 if len(times) != n_expected:
                     return dict(found=True, input=desc, expected='%d messages delivered' % n_expected, observed='%d delivered' % len(times))
                 if late:
